@@ -594,6 +594,12 @@ impl OsIpcReceiverSet {
                         // pending to read.
                         break;
                     },
+                    Err(UnixError::Errno(code)) if code == libc::ECONNRESET => {
+                        // A fragmented message was cut short because its sender went away.
+                        // Only that message is lost: keep the member, and keep the results
+                        // already gathered from the other members.
+                        continue;
+                    },
                     Err(err) => return Err(err),
                 }
             }
@@ -1111,7 +1117,10 @@ fn recv(
 
         match result.cmp(&0) {
             cmp::Ordering::Greater => continue,
-            cmp::Ordering::Equal => return Err(UnixError::ChannelClosed),
+            // The sender of this message went away (crashed, or gave up) before transmitting
+            // all of it. That loses this one message; it says nothing about the channel itself,
+            // which other senders may still be using -- so don't report `ChannelClosed`.
+            cmp::Ordering::Equal => return Err(UnixError::Errno(libc::ECONNRESET)),
             cmp::Ordering::Less => return Err(UnixError::last()),
         }
     }
